@@ -1,41 +1,36 @@
 package main
 
 import (
-	"bytes"
 	"encoding/json"
 	"fmt"
 	"os"
 
-	"verif/harness/internal/bt"
+	"verif/harness/internal/gcs"
 	"verif/harness/internal/j"
 )
 
+// dbg <replay.json> <out.ndjson>: re-run a gcs-seq replay and write its trace
 func main() {
 	b, _ := os.ReadFile(os.Args[1])
 	var f struct {
 		Case struct {
-			Program []bt.Op `json:"program"`
+			Store   string   `json:"store"`
+			Program []gcs.Op `json:"program"`
 		} `json:"case"`
 	}
-	json.Unmarshal(b, &f)
-	for it := 0; it < 10; it++ {
-		var out [3][]bt.Op
-		for e, eng := range []string{"btree", "mem", "disk"} {
-			dir, _ := os.MkdirTemp("", "d")
-			s, _ := bt.Start(eng, dir)
-			out[e] = s.Run(1, f.Case.Program)
-			s.CloseAndRemove()
-		}
-		for i := range out[0] {
-			a, _ := json.Marshal(out[0][i])
-			for e := 1; e < 3; e++ {
-				x, _ := json.Marshal(out[e][i])
-				if !bytes.Equal(a, x) {
-					fmt.Printf("iter %d step %d engine %d differs\n A %s\n X %s\n", it, i, e, j.Line(out[0][i]), j.Line(out[e][i]))
-					return
-				}
-			}
-		}
+	if err := json.Unmarshal(b, &f); err != nil {
+		panic(err)
 	}
-	fmt.Println("no diff")
+	dir, _ := os.MkdirTemp("", "d")
+	defer os.RemoveAll(dir)
+	s, _ := gcs.Start(f.Case.Store, dir)
+	evs := s.Run(1, f.Case.Program)
+	s.Close()
+	gcs.RankGens(evs)
+	var out []byte
+	for _, e := range evs {
+		out = append(out, j.Line(e)...)
+	}
+	os.WriteFile(os.Args[2], out, 0644)
+	fmt.Println(len(evs), "events")
 }
